@@ -4,14 +4,21 @@ From SCC Require Import Base.Sexp Model.RunBase Model.RunPM Model.RunX86.
 From SCC Require Import Base.Sexp Model.RunBase Model.RunPM Model.RunStages.
 From SCC Require Import Model.RunFun2Core.
 From SCC Require Import Model.RunSubst.
+From SCC Require Import Model.RunRT.
+From SCC Require Import Model.RunLin.
 Open Scope string_scope.
 
 Definition dispatch (cmd : string) (input : string) : string :=
   match cmd with
   | "pm" => run_pm input
+  | "lin" => run_lin input
   | "codegen-x86" => run_codegen_x86 input
+  | "heap-x86" => run_heap_x86 input
+  | "show-x86" => run_show_x86 input
+  | "c10-x86" => run_c10_x86 input
   | "stages" => run_stages input
   | "fun2core" => run_fun2core input
   | "subst" => run_subst input
+  | "rt" => run_rt input
   | _ => "BAD - unknown command " ++ cmd ++ nl
   end.
